@@ -539,9 +539,8 @@ def expr_of(case):
 def sig(r):
     c = r['case']
     s = {'expr': expr_of(c) if isinstance(c, dict) else str(c)[:200]}
-    for k in ('flavour', 'what', 'doc'):
-        if k in r:
-            s[k] = r[k]
+    if 'what' in r:           # one signature per (expression, kind of disagreement); flavour / document are in the detail
+        s['what'] = r['what']
     return s
 
 
